@@ -95,7 +95,7 @@ def run(check, mirror, tier):
         return d
 
     decide(check, crate, "input_variable_closures", setup, post, replay_input, rb, models=MODELS, unwind=8, describe=desc,
-           budget_s=900, min_paths=9, timeout_ms=20000, known_predicates=KNOWN_PRED)
+           budget_s=900, min_paths=9, timeout_ms=20000, known_predicates=KNOWN_PRED, prefer=lambda inp: U.replayable_pref(inp["_entry"]))
 
 
 def replay_input(i, rb):
